@@ -468,7 +468,49 @@ def rule_r9(ctx):
     c06.rule_r4(ctx, rid="C10.R9")
 
 
-RULES = [rule_g1, rule_g2_g3, rule_g4, rule_g5, rule_uses, rule_r9]
+def rule_r10(ctx, rid="C10.R10"):
+    ctx.r.rule(rid, "the section terminator: the head / trailer section ends at CRLF CRLF and nothing else; the search reports find(T) + len(T) and the trailer lines that are validated are everything before it (`[: pos - len(T)]`) - with a shorter terminator a field line ending in a bare LF ends the section, and the bare LF sits in the len(T) - 3 bytes that are cut off unvalidated")
+    p = ctx.p
+    f = p.functions.get("utilities.find_double_newline")
+    if f is None:
+        raise AnalysisError("anchor vanished: utilities.find_double_newline (the section terminator search)")
+    finds = [c for c in ast.walk(f.node) if isinstance(c, ast.Call) and isinstance(c.func, ast.Attribute) and c.func.attr in ("find", "index") and c.args]
+    if len(finds) != 1:
+        raise AnalysisError("find_double_newline no longer makes exactly one search (%d)" % len(finds))
+    try:
+        T = p.fold(finds[0].args[0], f.module)
+    except Exception:
+        raise AnalysisError("the terminator searched by find_double_newline is not a constant")
+    if T == b"\r\n\r\n":
+        ctx.r.ok(rid, "find_double_newline searches CRLF CRLF", f.loc(finds[0]))
+    else:
+        ctx.r.violation(rid, key_of(f, None, "terminator-literal"), "find_double_newline searches %r, not CRLF CRLF: a section also ends where a line was terminated by something else than CRLF" % (T,), f.loc(finds[0]))
+    incs = set()
+    for x in ast.walk(f.node):
+        if isinstance(x, ast.AugAssign) and isinstance(x.op, ast.Add) and isinstance(x.value, ast.Constant):
+            incs.add(x.value.value)
+        if isinstance(x, ast.BinOp) and isinstance(x.op, ast.Add) and isinstance(x.right, ast.Constant) and isinstance(x.left, ast.Name):
+            incs.add(x.right.value)
+    if not incs:
+        raise AnalysisError("find_double_newline: cannot see by how much the found position is advanced")
+    if incs == {len(T)}:
+        ctx.r.ok(rid, "the reported position is find(T) + len(T)", f.loc())
+    else:
+        ctx.r.violation(rid, key_of(f, None, "terminator-advance"), "find_double_newline advances the found position by %s, the terminator is %d bytes long" % (sorted(incs), len(T)), f.loc())
+    r = p.func("receiver.ChunkedReceiver.received")
+    n = 0
+    for x in ast.walk(r.node):
+        if isinstance(x, ast.Subscript) and isinstance(x.slice, ast.Slice) and x.slice.lower is None and isinstance(x.slice.upper, ast.BinOp) and isinstance(x.slice.upper.op, ast.Sub) \
+                and isinstance(x.slice.upper.right, ast.Constant) and isinstance(x.slice.upper.left, ast.Name) and "trailer" in norm(x.value):
+            n += 1
+            if x.slice.upper.right.value == len(T):
+                ctx.r.ok(rid, "the validated trailer text is everything before the terminator", r.loc(x))
+            else:
+                ctx.r.violation(rid, key_of(r, None, "trailer-window"), "the trailer lines that are validated are `%s` but the terminator is %d bytes long: the bytes in between are accepted unseen" % (norm(x), len(T)), r.loc(x))
+    ctx.r.floor(rid, n, 1, "validated trailer windows")
+
+
+RULES = [rule_g1, rule_g2_g3, rule_g4, rule_g5, rule_uses, rule_r9, rule_r10]
 THOROUGH = [thorough]
 LEVEL = "other"
 
